@@ -24,6 +24,10 @@ layers), every state and every key / history; nothing is assumed about the hash.
    ml_latest_put_partial          for histories whose writes of a key find every OTHER layer
                                   without that key (and without foreign file writes) every value
                                   handed out is the reference map's
+10 ml_ttl_policy_victims_irrelevant    a put into a Ttl-policy memory layer ignores the victims function
+   ml_ttl_policy_put_keeps_live        … and keeps every live entry of every other key
+   ml_ttl_first_layer_put_keeps_served … so a put never makes get lose a value such a first layer serves
+   (items 1-9 hold for every victims function, i.e. for all five eviction policies)
 -/
 import Cascette.Proofs.MultiLayer
 namespace Cascette.Props.C12
@@ -865,6 +869,47 @@ example :
   decide +kernel
 
 example : (MultiLayer.get envDet (run envDet twoLayers [.putToLayer 7 [1] 1, .get 7, .get 7, .promote 7 1 0, .put 8 [3]]) 7).out = .val (some [1]) := by
+  decide +kernel
+
+/-! ## 10  eviction policies of the memory layers
+
+Every theorem above holds for EVERY victims function (`env.victims`), so for all five eviction
+policies of a memory layer and every way ties / randomness fall out.  Two facts about the Ttl
+policy (the one policy that is not count-driven: it evicts exactly the entries whose TTL has
+ended) that the correspondence run relies on: -/
+
+/-- a put into a memory layer with the Ttl eviction policy does not depend on the victims
+function at all (so the model needs no observed victims there) -/
+theorem ml_ttl_policy_victims_irrelevant (vc vc' : Victims) (cfg : MemCache.Config) (ms : MemCache.State)
+    (hp : cfg.policy = .ttl) (k : Key) (v : Val) (c : Bool) :
+    Layer.putTtl vc (.mem cfg ms) k v c = Layer.putTtl vc' (.mem cfg ms) k v c :=
+  putTtl_ttl_victims_irrelevant vc vc' cfg ms hp k v c
+
+/-- … and it never evicts a live entry: whatever the layer answered for another key before the
+put (full or not, with or without expired entries waiting to be evicted) it answers after it -/
+theorem ml_ttl_policy_put_keeps_live (vc : Victims) (cfg : MemCache.Config) (ms : MemCache.State)
+    (hp : cfg.policy = .ttl) (hinv : Proofs.MemCache.Inv ms) (k k' : Key) (v v' : Val) (c : Bool) (hne : k' ≠ k)
+    (h : (Layer.mem cfg ms).peek k' = .hit v') :
+    (Layer.putTtl vc (.mem cfg ms) k v c).peek k' = .hit v' :=
+  peek_putTtl_ttl_keeps_live vc cfg ms hp hinv k k' v v' c hne h
+
+/-- in the property's words: with a Ttl-policy first layer, a `put` of another key never makes
+`get` lose (or change) a value the first layer serves -/
+theorem ml_ttl_first_layer_put_keeps_served (env : Env) (s : State) (sl : Slot) (rest : List Slot)
+    (cfg : MemCache.Config) (ms : MemCache.State) (hs : s.slots = sl :: rest) (hl : sl.layer = .mem cfg ms)
+    (hp : cfg.policy = .ttl) (hinv : Proofs.MemCache.Inv ms) (k k' : Key) (v v' : Val) (hne : k' ≠ k)
+    (h : sl.layer.peek k' = .hit v') :
+    (MultiLayer.get env (MultiLayer.put env s k v).st k').out = .val (some v') := by
+  rw [ml_get_first_holder, ttl_first_layer_put_keeps_served env s sl rest cfg ms hs hl hp hinv k k' v v' hne h]
+
+/-- the hypotheses are met by a full two-entry Ttl-policy layer that still stores an expired
+entry (key 1) next to a live one (key 2): the put of key 3 evicts key 1 only (test by evaluation) -/
+example :
+    let cfg : MemCache.Config := { maxEntries := 2, maxBytes := none, policy := .ttl, defaultShort := false }
+    let env : Env := { strategy := .onHit, hooks := none, victims := fun _ _ => [] }
+    let s := run env (init [.mem cfg MemCache.init]) [.putTtl 1 [1] true, .put 2 [2], .put 3 [3]]
+    (MultiLayer.get env s 2).out = .val (some [2]) ∧ (MultiLayer.get env s 1).out = .val none ∧
+      (MultiLayer.get env s 3).out = .val (some [3]) := by
   decide +kernel
 
 end Cascette.Props.C12
